@@ -52,7 +52,7 @@ M_THOROUGH = [
     ("waiters_client", dict(MaxPing=2, MaxWC=1, MaxWClosed=1, MaxFault=2)),
     ("waiters_both_sides", dict(MaxPing=1, MaxWC=1, MaxWClosed=1, ServerApp="TRUE", MaxFault=1)),
     ("stream", dict(NChunk=2, MaxFault=2, MaxPing=1)),
-    ("routing_retry", dict(UseRetry="TRUE", MaxCid=2, MaxRebind=1, MaxFault=2, MaxWClosed=1)),
+    ("routing_retry", dict(UseRetry="TRUE", MaxCid=2, MaxRebind=1, MaxFault=3, MaxWClosed=1, MaxPing=1)),
     ("two_clients", dict(NC=2, MaxPing=1, MaxCid=1, Late="FALSE", MaxFault=0)),
     ("two_clients_retry", dict(NC=2, UseRetry="TRUE", MaxRebind=1, MaxFault=1, Late="FALSE")),
 ]
@@ -75,10 +75,13 @@ def scenario_from_behaviour(states, sid, nc):
     server = {"idle": 60.0, "ops": [], "late": [], "echo": "after"}
     net = {"drop": 0.0, "dup": 0.0, "rebind": 0.0, "max_drops": 0, "max_dups": 0, "max_delay": 0.02}
     acts = []
+    gap = set()          # endpoints for which loop / network actions happened since their last application step
     for a, b in zip(states, states[1:]):
         act = b["act"]
         acts.append(act)
         k = act[0]
+        if k in ("Deliver", "Duplicate", "Transmit", "HandleTimer"):
+            gap = set(range(1, 2 * nc + 1))
         if k in ("Drop", "Duplicate", "Rebind"):
             key = {"Drop": "drop", "Duplicate": "dup", "Rebind": "rebind"}[k]
             net[key] = 0.2
@@ -99,6 +102,9 @@ def scenario_from_behaviour(states, sid, nc):
             continue
         tgt = clients[cl - 1] if e <= nc else server
         lst = tgt["late"] if closed else tgt["ops"]
+        if e in gap and k != "Connect":
+            gap.discard(e)
+            lst.append(["sleep", 0.003])      # the behaviour let the loop / the network run before this step
         if k == "Connect":
             tgt["wait_connected"] = bool(act[2])
             tgt["_on"] = True
@@ -245,7 +251,7 @@ def judge(check, results, name):
             check.drift(sig, detail)
         else:
             check.violation(sig, detail)
-    return lines, fails
+    return lines, fails, [o[0] for o in owner]
 
 
 def binding_demo(check, good):
@@ -278,10 +284,13 @@ def binding_demo(check, good):
         return ls, "future-once"
 
     demo, lines, spans = {}, [], []
-    for f in (corrupt_read, drop_wdone, stale_route, second_completion):
-        ls, expect = variant(f)
-        spans.append((f.__name__, expect, len(lines), len(lines) + len(ls)))
-        lines += ls
+    try:
+        for f in (corrupt_read, drop_wdone, stale_route, second_completion):
+            ls, expect = variant(f)
+            spans.append((f.__name__, expect, len(lines), len(lines) + len(ls)))
+            lines += ls
+    except StopIteration:
+        return False          # this run lacks one of the events to tamper with
     fails = trace.validate(check, "TraceAsyncio", lines, constants=consts(), name="binding_demo", shards=1)
     for name, expect, lo, hi in spans:
         got = sorted({c for i, c in fails if lo <= i < hi})
@@ -289,6 +298,7 @@ def binding_demo(check, good):
         if expect not in got:
             raise MachineryError("binding demonstration %s: TLC did not reject the corrupted trace (%s)" % (name, got))
     check.cov["binding_demonstrations"] = demo
+    return True
 
 
 def replay(check, S, A):
@@ -364,7 +374,7 @@ def run(check):
         pool.terminate()
     results.sort(key=lambda x: x[0]["id"])
 
-    lines, fails = judge(check, results, "TraceAsyncio_V")
+    lines, fails, owner_of = judge(check, results, "TraceAsyncio_V")
     ops = {}
     for e in lines:
         ops[e["op"]] = ops.get(e["op"], 0) + 1
@@ -379,12 +389,17 @@ def run(check):
     check.cov["events"] = ops
     check.cov["schedule_totals"] = agg
     check.cov["scenarios"] = {"random": len(scenarios), "from_tlc_behaviours": len(derived)}
-    good = next((ls for sc, ls, st, _ in results
-                 if any(x["op"] == "read" for x in ls) and any(x["op"] == "term" for x in ls)
-                 and any(x["op"] == "conn-created" for x in ls) and len(ls) < 400), None)
+    failing_runs = {owner_of[i] for i, _ in fails}
+    good = None
+    for ri, (sc, ls, st, _) in enumerate(results):
+        if ri not in failing_runs and len(ls) < 400 and any(x["op"] == "read" for x in ls) \
+                and any(x["op"] == "conn-created" for x in ls) and binding_demo(check, ls):
+            good = ls
+            break
     if good is None:
-        raise MachineryError("no run suitable for the binding demonstration")
-    binding_demo(check, good)
+        if not check.violations and not check.known_hits:
+            raise MachineryError("no run suitable for the binding demonstration")
+        good = results[0][1]
     sc0, ls0, st0, _ = results[0]
     check.sample({"scenario": sc0, "stats": st0, "first_lines": ls0[:12]})
     scd = next((r for r in results if r[0].get("from_tlc")), None)
